@@ -10,146 +10,8 @@ V = pathlib.Path(__file__).resolve().parent.parent
 SUFFIX = '_rn'
 
 
-class Renamer(ast.NodeTransformer):
-
-  def __init__(self, table):
-    self.stack = []      # list of (symtable, {old: new})
-    self.table = table
-    self.count = 0
-
-  def _child(self, name, lineno, kind):
-    cur = self.stack[-1][0] if self.stack else self.table
-    for c in cur.get_children():
-      if c.get_name() == name and c.get_lineno() == lineno:
-        return c
-    for c in cur.get_children():
-      if c.get_name() == name:
-        return c
-    return None
-
-  def _lookup(self, name):
-    for tab, ren in reversed(self.stack):
-      if isinstance(ren, set):       # comprehension scope: only its targets shadow
-        if name in ren:
-          return None
-        continue
-      try:
-        s = tab.lookup(name)
-      except KeyError:
-        continue
-      if s.is_free():
-        continue
-      if name in ren:
-        return ren[name]
-      if s.is_local() or s.is_parameter() or s.is_global() or s.is_imported():
-        return None
-    return None
-
-  def _enter(self, tab, is_function):
-    ren = {}
-    if tab is not None and is_function:
-      uses_dyn = any(n in ('locals', 'eval', 'exec', 'vars')
-                     for n in tab.get_identifiers())
-      has_class = any(c.get_type() == 'class' for c in tab.get_children())
-      if not uses_dyn and not has_class:
-        for s in tab.get_symbols():
-          if s.is_local() and not s.is_parameter() and not s.is_imported() and \
-              not s.is_global() and not s.is_nonlocal() and not s.is_namespace() \
-              and s.is_assigned() and not s.get_name().startswith('__'):
-            ren[s.get_name()] = s.get_name() + SUFFIX
-    self.stack.append((tab, ren))
-
-  def visit_FunctionDef(self, node):
-    node.decorator_list = [self.visit(d) for d in node.decorator_list]
-    node.args.defaults = [self.visit(d) for d in node.args.defaults]
-    node.args.kw_defaults = [self.visit(d) if d is not None else None
-                             for d in node.args.kw_defaults]
-    tab = self._child(node.name, node.lineno, 'function')
-    if tab is None:
-      return node
-    self._enter(tab, True)
-    node.body = [self.visit(s) for s in node.body]
-    self.stack.pop()
-    return node
-
-  def visit_Lambda(self, node):
-    node.args.defaults = [self.visit(d) for d in node.args.defaults]
-    tab = self._child('lambda', node.lineno, 'function')
-    if tab is None:
-      return node
-    self._enter(tab, False)
-    node.body = self.visit(node.body)
-    self.stack.pop()
-    return node
-
-  def visit_ClassDef(self, node):
-    tab = self._child(node.name, node.lineno, 'class')
-    if tab is None:
-      return node
-    self._enter(tab, False)
-    node.body = [self.visit(s) for s in node.body]
-    self.stack.pop()
-    return node
-
-  def _comp(self, node, name):
-    tab = self._child(name, node.lineno, 'function')
-    # the first iterable is evaluated in the enclosing scope
-    first = node.generators[0]
-    first.iter = self.visit(first.iter)
-    targets = set()
-    for g in node.generators:
-      for x in ast.walk(g.target):
-        if isinstance(x, ast.Name):
-          targets.add(x.id)
-    self.stack.append((tab, targets))
-    for i, g in enumerate(node.generators):
-      g.target = self.visit(g.target)
-      if i > 0:
-        g.iter = self.visit(g.iter)
-      g.ifs = [self.visit(x) for x in g.ifs]
-    if isinstance(node, ast.DictComp):
-      node.key = self.visit(node.key)
-      node.value = self.visit(node.value)
-    else:
-      node.elt = self.visit(node.elt)
-    self.stack.pop()
-    return node
-
-  def visit_ListComp(self, node):
-    return self._comp(node, 'listcomp')
-
-  def visit_SetComp(self, node):
-    return self._comp(node, 'setcomp')
-
-  def visit_DictComp(self, node):
-    return self._comp(node, 'dictcomp')
-
-  def visit_GeneratorExp(self, node):
-    return self._comp(node, 'genexpr')
-
-  def visit_Name(self, node):
-    new = self._lookup(node.id)
-    if new:
-      node.id = new
-      self.count += 1
-    return node
-
-  def visit_ExceptHandler(self, node):
-    if node.name:
-      new = self._lookup(node.name)
-      if new:
-        node.name = new
-    self.generic_visit(node)
-    return node
-
-
-def rename_source(src, filename='<m>'):
-  tree = ast.parse(src)
-  table = symtable.symtable(src, filename, 'exec')
-  r = Renamer(table)
-  r.stack.append((table, {}))
-  tree = r.visit(tree)
-  return ast.unparse(tree) + '\n', r.count
+sys.path.insert(0, str(V))
+from sa.twins import Renamer, rename_source  # noqa: E402
 
 
 def main():
@@ -172,7 +34,7 @@ def main():
     print('renamed %d name occurrences' % total)
     if verify:
       shutil.copytree('/repo/tests', tmp / 'tests', dirs_exist_ok=True)
-      r = subprocess.run(['/tmp/wt/run_baseline.sh', str(tmp)], capture_output=True, text=True)
+      r = subprocess.run(['/verif/tools/run_baseline.sh', str(tmp)], capture_output=True, text=True)
       print('baseline on renamed tree:', r.stdout.strip()[-200:])
     props = props or [c['property_id'] for c in json.load(open(V / 'MANIFEST.json'))['checks']]
     env = dict(os.environ, VERIF_REPO=str(tmp), VERIF_NO_EVIDENCE='1')
